@@ -292,6 +292,16 @@ func c13Null(a *acc) {
 		{"where-deep-or", "SELECT id FROM stream WHERE p.q.r IS NULL OR d.x IS NULL", func(r rv) bool { return r.deep || r.dx }, "where", ""},
 		{"where-and", "SELECT id FROM stream WHERE s IS NOT NULL AND d.x IS NULL", func(r rv) bool { return !r.null && r.dx }, "where", ""},
 	}
+	// the same statements with the predicate keywords in lower and mixed case
+	for _, qq := range qs[:len(qs):len(qs)] {
+		lo := qq
+		lo.name += "-lower-case"
+		lo.sql = strings.ReplaceAll(strings.ReplaceAll(qq.sql, " IS NOT NULL", " is not null"), " IS NULL", " is null")
+		mi := qq
+		mi.name += "-mixed-case"
+		mi.sql = strings.ReplaceAll(strings.ReplaceAll(qq.sql, " IS NOT NULL", " Is not Null"), " IS NULL", " iS nULL")
+		qs = append(qs, lo, mi)
+	}
 	for _, qq := range qs {
 		res, execErr, st, pv := syncEval(qq.sql, rows)
 		if execErr != "" || st != sched.StatusOK {
@@ -484,7 +494,7 @@ func c13Null(a *acc) {
 func (c13) Describe(tier string) fw.Description {
 	return fw.Description{
 		Level: "model_checking",
-		Rule: "exhaustive product: all patterns of length <= n over {%,_,a,b,.} x all texts of length <= n over the same alphabet x 4 contexts (WHERE, CASE WHEN, SELECT x LIKE p, HAVING) evaluated by the real engine (EmitSync / CountingWindow(1)+HAVING) against an anchored-regexp reference (ref.Like); IS NULL / IS NOT NULL over present (incl. '', 0, false), NULL and missing columns and nested paths in WHERE, SELECT, CASE, HAVING and an AND combination; the same with upper/lower/mixed-case keywords, NULL and missing text, LIKE combined with IS NULL, and columns, aliases and HAVING texts whose names contain keywords (caseNote, orders, case_id, use_case); a case = (pattern,text,context); non-trivial = the reference says the text matches",
+		Rule: "exhaustive product: all patterns of length <= n over {%,_,a,b,.} x all texts of length <= n over the same alphabet x 4 contexts (WHERE, CASE WHEN, SELECT x LIKE p, HAVING) evaluated by the real engine (EmitSync / CountingWindow(1)+HAVING) against an anchored-regexp reference (ref.Like); IS NULL / IS NOT NULL over present (incl. '', 0, false), NULL and missing columns and nested paths in WHERE, SELECT, CASE, HAVING and an AND combination, each statement also with IS [NOT] NULL written in lower and in mixed case; the same with upper/lower/mixed-case keywords, NULL and missing text, LIKE combined with IS NULL, and columns, aliases and HAVING texts whose names contain keywords (caseNote, orders, case_id, use_case); a case = (pattern,text,context); non-trivial = the reference says the text matches",
 		Bounds:      map[string]any{"max_len": map[string]any{"quick": "4 in WHERE and CASE, 3 in SELECT and HAVING", "thorough": 4}, "alphabet": c13Chars, "contexts": c13Contexts},
 		Assumptions: []string{"patterns and texts contain no quote characters", "LIKE over NULL/missing text is not asserted here"},
 	}
